@@ -50,11 +50,54 @@ FrameOk(ev) == ev.frame_t = "hex" /\ ev.frame_b = ev.bytes
 Redecode(ev) == /\ ev.re_out = "ok" /\ ev.re_ser = "ok"
                 /\ ev.e = "pos" \/ (ev.re_h = ev.h_t /\ ev.re_h_m = ev.h_m)
 
-Ok(ev) == /\ Serialises(ev) /\ OneLine(ev) /\ NoDup(ev) /\ Finite(ev)
+(* Records of kind "cli": the decode1090 program was given the input frame  *)
+(* in a jsonl file (own timestamp, own metadata, --deduplication 0, so each *)
+(* input is its own record).  ev.line: "present" (it printed one line for   *)
+(* this input), "none", "many", "crash" (the process died on this input),   *)
+(* "orphan" (a line that belongs to no input).  The specification allows:   *)
+(*   crash       the program survives every input, decodable or not        *)
+(*   serialises  an input the library accepts (try_from) gives one line    *)
+(*   one_line / no_dup / finite / df / icao24 / frame   as above, on the   *)
+(*               text of the line (a latitude / longitude entry is absent  *)
+(*               or a number, never null; the in-process record of the     *)
+(*               same input holds no non-finite float)                     *)
+(*   consistency the line says what the library says: its canonical text   *)
+(*               (without latitude / longitude, which depend on the        *)
+(*               program's aircraft history) is that of the in-process     *)
+(*               TimedMessage with the same timestamp and metadata; when   *)
+(*               that record holds both bds50 and bds60 the program may    *)
+(*               drop the pair (it does, by design)                        *)
+(* Inputs the library does not accept need not give a line.                *)
+CliSurvives(ev) == ev.line # "crash"
+CliLine(ev) == ev.line \in {"present", "none"} /\ (ev.accepted => ev.line = "present")
+CliOneLine(ev) == ev.parsed /\ ev.top_obj /\ ~ev.trailing /\ ev.newlines = 0
+CliFinite(ev) == ev.nonfinite = 0 /\ ~ev.pos_null /\ ev.hidden_nf = 0
+CliDf(ev) == (ev.accepted /\ Addressed(ev)) => ev.df = Decimal(ShownDF(ev.bytes))
+CliIcao(ev) == (ev.accepted /\ Addressed(ev) /\ CarriesAddress(ev.bytes)) => ev.icao = Hex6(ShownICAOFast(ev.bytes))
+CliConsistent(ev) == ev.ref_ok /\ (ev.h_line = ev.h_ref \/ (ev.both5060 /\ ev.h_line = ev.h_ref_inval))
+CliClause(ev) ==
+  CASE ~CliSurvives(ev) -> "crash"
+    [] ev.line = "skipped" -> "ok"      \* not submitted again after repeated deaths in its chunk
+    [] ev.line \in {"orphan", "many"} -> "consistency"
+    [] ~CliLine(ev) -> "serialises"
+    [] ev.line = "none" -> "ok"
+    [] ~CliOneLine(ev) -> "one_line"
+    [] ev.dups # 0 -> "no_dup"
+    [] ~CliFinite(ev) -> "finite"
+    [] ~CliDf(ev) -> "df"
+    [] ~CliIcao(ev) -> "icao24"
+    [] ~FrameOk(ev) -> "frame"
+    [] ~CliConsistent(ev) -> "consistency"
+    [] OTHER -> "ok"
+CliOk(ev) == CliClause(ev) = "ok"
+
+Ok(ev) == IF ev.e = "cli" THEN CliOk(ev) ELSE
+          /\ Serialises(ev) /\ OneLine(ev) /\ NoDup(ev) /\ Finite(ev)
           /\ DfOk(ev) /\ IcaoOk(ev) /\ FrameOk(ev) /\ Redecode(ev)
 
 Clause(ev) ==
-  CASE ~Serialises(ev) -> "serialises"
+  CASE ev.e = "cli" -> CliClause(ev)
+    [] ~Serialises(ev) -> "serialises"
     [] ~OneLine(ev) -> "one_line"
     [] ~NoDup(ev) -> "no_dup"
     [] ~Finite(ev) -> "finite"
